@@ -1186,7 +1186,11 @@ class PDFPageInterpreter:
 
     def do_EI(self, obj: PDFStackT) -> None:
         """End inline image object"""
-        if isinstance(obj, PDFStream) and "W" in obj and "H" in obj:
+        if (
+            isinstance(obj, PDFStream)
+            and obj.get_any(("W", "Width")) is not None
+            and obj.get_any(("H", "Height")) is not None
+        ):
             # a reproducible name (memory addresses differ from run to run)
             self.inline_image_count += 1
             iobjid = "inline%d" % self.inline_image_count
